@@ -14,6 +14,10 @@ WEAK = {"Drain_WeakLater.cfg": "Inv_C10_Guards", "Drain_WeakTiers.cfg": "Inv_C10
         "Drain_WeakDnd.cfg": "Inv_C10_Guards", "Drain_WeakThreshold.cfg": "Inv_C10_Guards"}
 
 
+def behaviours(run):
+    return tc.generate(run, NSIM[run.tier][0], NSIM[run.tier][1], with_term_sys=run.tier == "thorough", with_drain_sys=True)
+
+
 def check(run):
     run.rule = ("behaviours = TLC simulation of Drain.tla (3 pods over 10 archetypes: tier, do-not-disrupt true/duration/invalid, "
                 "tolerating, static, grace period, PDB; drain passes and queue reconciles interleaved with kubelet/PDB/annotation/"
@@ -24,7 +28,7 @@ def check(run):
     thorough = run.tier == "thorough"
     models = ["Drain_MC.cfg", "Drain_MCdl.cfg"] + (["Drain_MCbig.cfg", "Drain_MCdlbig.cfg", "Drain_Live.cfg"] if thorough else [])
     tc.parallel_tlc(run, "Drain", models, WEAK, coverage=thorough, workers=6 if thorough else 4)
-    behs = tc.generate(run, NSIM[run.tier][0], NSIM[run.tier][1], with_term_sys=thorough, with_drain_sys=True)
+    behs = behaviours(run)
     files = tc.record(run, behs)
     info, total = tc.scan(files, len(behs))
     for b, k in zip(behs, info):
@@ -41,6 +45,6 @@ def check(run):
 
 
 def replay(run, path):
-    body = json.load(open(path))
-    raise vlib.InfraError("replay of termination traces: re-run `bin/check C10` with VERIF_SEED=%s; the failing trace is embedded in %s"
-                          % (body.get("seed"), path))
+    """Re-execute the failing behaviour on the current tree and re-validate it (behaviours are a deterministic
+    function of tier and seed, so the replay file only needs to name them)."""
+    tc.replay(run, path, behaviours)
